@@ -1,0 +1,12 @@
+//go:build verif
+
+package loadbalance
+
+import "sync"
+
+// ResetConsistentHashForVerif puts the consistent-hash balancer back into its process-start
+// state, so that every generated history starts from a ring that has not been built yet.
+func ResetConsistentHashForVerif() {
+	once = sync.Once{}
+	consistentInstance = nil
+}
